@@ -251,7 +251,9 @@ def main():
                 x0, x1 = distinct[0], distinct[1]
                 j = next((i for i in range(min(len(x0), len(x1))) if x0[i] != x1[i]), min(len(x0), len(x1)))
                 detail = ": ...%s... vs ...%s..." % (x0[max(0, j - 50):j + 50], x1[max(0, j - 50):j + 50])
-            x.broken.append("%s: the %d find_raw/rfind_raw wrappers of One/Two/Three are not the same routing (%d distinct)%s" % (
+            # soft: a legitimate change may touch one entry point only (a fast path for one needle
+            # count); the deeper correspondence run decides
+            x.soft.append("%s: the %d find_raw/rfind_raw wrappers of One/Two/Three are not the same routing (%d distinct)%s" % (
                 rel, len(bodies), len(distinct), detail))
     x.facts["wrapper_symmetry"] = sym
     # the seven x86_64 dispatchers all instantiate the one ifunc macro
@@ -260,7 +262,7 @@ def main():
         x.facts["ifunc_instances"] = len(re.findall(r"unsafe_ifunc!\(", d))
         x.facts["ifunc_macro_defs"] = len(re.findall(r"macro_rules! unsafe_ifunc", d))
         if x.facts["ifunc_instances"] != 7 or x.facts["ifunc_macro_defs"] != 1:
-            x.broken.append("x86_64/memchr.rs: expected 7 instances of one unsafe_ifunc! macro, found %d/%d" % (x.facts["ifunc_instances"], x.facts["ifunc_macro_defs"]))
+            x.soft.append("x86_64/memchr.rs: expected 7 instances of one unsafe_ifunc! macro, found %d/%d" % (x.facts["ifunc_instances"], x.facts["ifunc_macro_defs"]))
     except OSError as e:
         x.broken.append("x86_64/memchr.rs unreadable: %s" % e)
 
